@@ -169,6 +169,10 @@ def scenarios(tier):
                 v={0: [M('Debug', [P('nf', sp_bool('named_field', True))])], 1: [M('Debug', [P('name', sp_name(None, off=True))])]})
         add('Debug/bound/' + tag, shape, [M('Debug', [P('bound', sp_bound(['T: ::core::fmt::Debug', 'u8: Copy'])), P('name', sp_name('Zz'))])])
         add('Debug/boundoff/' + tag, shape, [M('Debug', [P('bound', SP_BOUND_OFF)])])
+        # predicates whose bounded type does not begin with an identifier (`*const T`, a reference, an array, a tuple, a fn pointer), first in the list and later in it
+        for li, lead in enumerate(['*const T: Copy', '*mut u8: Copy', "&'static u8: Copy", '[u8; 2]: Copy', '(u8, u16): Copy', 'fn(u8) -> u8: Copy']):
+            add('Debug/bound-lead%d/%s' % (li, tag), shape, [M('Debug', [P('bound', sp_bound([lead, 'T: ::core::fmt::Debug']))])])
+            add('Debug/bound-late%d/%s' % (li, tag), shape, [M('Debug', [P('bound', sp_bound(['T: ::core::fmt::Debug', lead]))])])
         # fields
         for pos in ((0, 0), (len(shape.variants) - 1, 1)):
             is_named = shape.variants[pos[0]][0] == 'n'
@@ -225,6 +229,7 @@ def scenarios(tier):
         pos = (len(shape.variants) - 1, 1)
         add('Clone/f-method/' + tag, shape, [M('Clone')], f={pos: [M('Clone', [P('method', sp_method('clone_m'))])]})
         add('Clone/bound/' + tag, shape, [M('Clone', [P('bound', sp_bound(['T: Clone']))])])
+        add('Clone/bound-lead/' + tag, shape, [M('Clone', [P('bound', sp_bound(['*const T: Copy', 'T: Clone']))])])
         add('CopyClone/bound/' + tag, shape, [M('Copy'), M('Clone', [P('bound', SP_BOUND_OFF)])])
         add('Copy/bound/' + tag, shape, [M('Copy', [P('bound', sp_bound(['T: Copy']))])])
         if shape.kind == 'enum':
